@@ -12,6 +12,8 @@ import (
 	"time"
 
 	"github.com/TarsCloud/TarsGo/tars/protocol"
+	"github.com/TarsCloud/TarsGo/tars/protocol/res/basef"
+	"github.com/TarsCloud/TarsGo/tars/util/current"
 	"github.com/TarsCloud/TarsGo/tars/transport"
 	"github.com/TarsCloud/TarsGo/tars/util/vhook"
 	"verifharness/internal/tr"
@@ -24,7 +26,12 @@ type sdProto struct{}
 
 func (sdProto) Invoke(ctx context.Context, pkg []byte) []byte {
 	if len(pkg) >= 16 {
-		if d := binary.BigEndian.Uint32(pkg[12:16]); d > 0 {
+		d := binary.BigEndian.Uint32(pkg[12:16])
+		if d&sdOneWay != 0 { // a one-way request: the transport must not answer it
+			current.SetPacketTypeFromContext(ctx, basef.TARSONEWAY)
+			d &^= sdOneWay
+		}
+		if d > 0 {
 			time.Sleep(time.Duration(d) * time.Millisecond)
 		}
 		rsp := make([]byte, 12)
@@ -39,6 +46,8 @@ func (sdProto) InvokeTimeout(pkg []byte) []byte  { return nil }
 func (sdProto) GetCloseMsg() []byte              { return []byte{0, 0, 0, 8, 0xff, 0xff, 0xff, 0xff} }
 func (sdProto) DoClose(ctx context.Context)      {}
 
+const sdOneWay = 1 << 31 // flag in the duration field of a request frame
+
 type sdState struct {
 	mu    sync.Mutex
 	rec   *tr.Rec
@@ -46,6 +55,7 @@ type sdState struct {
 	hits  map[string]int
 	// connections whose recv goroutine reported its close (hook tcp.recv.closed) / whose client saw the end of the stream
 	closed, eof map[int]bool
+	aborted     map[int]bool // connections whose client vanished with a reset
 }
 
 var sd = &sdState{hits: map[string]int{}}
@@ -99,7 +109,7 @@ func sdHook(point string, a ...interface{}) {
 	}
 }
 
-func sdScenario(rng *rand.Rand, n, q int, ctxTimeout time.Duration) []tr.Ev {
+func sdScenario(rng *rand.Rand, n, q int, ctxTimeout time.Duration, abortAll bool) []tr.Ev {
 	rec := tr.New()
 	ln, _ := net.Listen("tcp", "127.0.0.1:0")
 	addr := ln.Addr().String()
@@ -110,10 +120,13 @@ func sdScenario(rng *rand.Rand, n, q int, ctxTimeout time.Duration) []tr.Ev {
 		panic(err)
 	}
 	nconn := 1 + rng.Intn(2)
+	if abortAll {
+		nconn = 2
+	}
 	sd.mu.Lock()
 	sd.rec = rec
 	sd.conns = map[string]int{}
-	sd.closed, sd.eof = map[int]bool{}, map[int]bool{}
+	sd.closed, sd.eof, sd.aborted = map[int]bool{}, map[int]bool{}, map[int]bool{}
 	sd.mu.Unlock()
 	rec.Emit("Config", "n", n, "q", q, "conns", nconn)
 	served := make(chan struct{})
@@ -132,16 +145,30 @@ func sdScenario(rng *rand.Rand, n, q int, ctxTimeout time.Duration) []tr.Ev {
 		readers.Add(1)
 		go func(c int, k net.Conn) { // client reader: responses, close message, EOF
 			defer readers.Done()
-			defer func() { sd.mu.Lock(); sd.eof[c] = true; sd.mu.Unlock() }()
+			gone := func() bool { sd.mu.Lock(); defer sd.mu.Unlock(); return sd.aborted[c] }
+			defer func() {
+				sd.mu.Lock()
+				if !sd.aborted[c] {
+					sd.eof[c] = true
+				}
+				sd.mu.Unlock()
+			}()
 			hdr := make([]byte, 4)
 			for {
 				if _, err := io.ReadFull(k, hdr); err != nil {
-					rec.Emit("PeerEOF", "c", c)
+					if !gone() {
+						rec.Emit("PeerEOF", "c", c)
+					}
 					return
 				}
 				body := make([]byte, binary.BigEndian.Uint32(hdr)-4)
 				if _, err := io.ReadFull(k, body); err != nil {
-					rec.Emit("PeerEOF", "c", c)
+					if !gone() {
+						rec.Emit("PeerEOF", "c", c)
+					}
+					return
+				}
+				if gone() {
 					return
 				}
 				if len(body) == 4 && body[0] == 0xff {
@@ -153,9 +180,16 @@ func sdScenario(rng *rand.Rand, n, q int, ctxTimeout time.Duration) []tr.Ev {
 		}(c, k)
 	}
 	long := rng.Intn(4) == 0 // one handler that outlasts the poller's 2-second idle rule
+	abort := !long && nconn == 2 && rng.Intn(4) == 0
+	if abortAll {
+		long, abort = false, true
+	}
 	time.Sleep(5 * time.Millisecond) // let the server register the connections
 	durs := []uint32{0, 0, 30, 150, 400}
 	nreq := rng.Intn(7)
+	if abort && nreq < 2 {
+		nreq = 2
+	}
 	if n > 0 && rng.Intn(2) == 0 { // load that keeps the pool's queue occupied when the shutdown begins
 		durs = []uint32{30, 150, 400, 400}
 		nreq = 3 + rng.Intn(4)
@@ -174,6 +208,12 @@ func sdScenario(rng *rand.Rand, n, q int, ctxTimeout time.Duration) []tr.Ev {
 		if long {
 			d, long = 2700, false
 		}
+		if abort && c == 1 && r == 1 {
+			d = 300 // the request that is still running when its client vanishes
+		}
+		if r == 3 || r == 6 { // one-way requests (OneWay in Trace_ServerShutdown)
+			d |= sdOneWay
+		}
 		binary.BigEndian.PutUint32(p[12:], d)
 		rec.Emit("ReqSent", "c", c, "r", r)
 		conns[c].Write(p)
@@ -181,7 +221,22 @@ func sdScenario(rng *rand.Rand, n, q int, ctxTimeout time.Duration) []tr.Ev {
 			time.Sleep(time.Duration(rng.Intn(20)) * time.Millisecond)
 		}
 	}
-	time.Sleep(time.Duration([]int{0, 2, 20, 100, 300}[rng.Intn(5)]) * time.Millisecond)
+	if abort && nconn == 2 {
+		// the client of connection 1 vanishes with a reset while its request is still being handled: the connection stays
+		// registered, writing to it fails; the client of connection 2 is healthy and must get its notification all the same
+		time.Sleep(15 * time.Millisecond)
+		sd.mu.Lock()
+		sd.aborted[1] = true
+		sd.mu.Unlock()
+		rec.Emit("ClientAbort", "c", 1)
+		if tc, ok := conns[1].(*net.TCPConn); ok {
+			tc.SetLinger(0)
+		}
+		conns[1].Close()
+		time.Sleep(time.Duration(10+rng.Intn(40)) * time.Millisecond)
+	} else {
+		time.Sleep(time.Duration([]int{0, 2, 20, 100, 300}[rng.Intn(5)]) * time.Millisecond)
+	}
 	ctx, cancel := context.WithTimeout(context.Background(), ctxTimeout)
 	rec.Emit("ShutdownStart")
 	t0 := time.Now()
@@ -210,6 +265,11 @@ func sdScenario(rng *rand.Rand, n, q int, ctxTimeout time.Duration) []tr.Ev {
 				missing++
 			}
 		}
+		for c := range sd.aborted {
+			if !sd.closed[c] {
+				missing++
+			}
+		}
 		sd.mu.Unlock()
 		if missing == 0 {
 			break
@@ -234,6 +294,7 @@ func shutdownTrace(args []string) error {
 	qcap := fs.Int("q", 3, "QueueCap")
 	out := fs.String("out", "trace.ndjson", "output")
 	ctxMs := fs.Int("ctx", 4000, "Shutdown context timeout in ms")
+	abortAll := fs.Bool("abort", false, "every scenario: two clients, the first vanishes with a reset while its request is running")
 	fs.Parse(args)
 	rng := rand.New(rand.NewSource(*seed))
 	vhook.Set(sdHook)
@@ -242,7 +303,7 @@ func shutdownTrace(args []string) error {
 		return err
 	}
 	for i := 0; i < *num; i++ {
-		for _, ev := range sdScenario(rng, *pool, *qcap, time.Duration(*ctxMs)*time.Millisecond) {
+		for _, ev := range sdScenario(rng, *pool, *qcap, time.Duration(*ctxMs)*time.Millisecond, *abortAll) {
 			w.Write(ev)
 		}
 	}
